@@ -1,5 +1,6 @@
 import Mg.Basic
 import Bd.MergeSame
+import Bd.Rle
 
 /-! # C07 — property theorems (statements only; proofs live in the family libraries) -/
 
@@ -40,6 +41,22 @@ theorem merge_all_identical :
     (k : Nat) (hk : ∃ b ∈ bs, ∃ v, (k, v) ∈ w.mf (w.br b).mref),
     Agree w' bs k :=
   @Bd.merge_all_identical
+end
+
+section
+open Bd Fu
+
+/-- re-encoding a merged line array as interval nodes loses nothing -/
+theorem flat_rle : ∀ (ls : List Nat), flat (rle ls) = ls := @Bd.flat_rle
+
+/-- the interval list installed by the analysis-level merge flattens to the per-line resolution of the copies (which
+`resolve_spec` characterises), with the length of the copies; copies of different length are refused -/
+theorem merged_nodes_pointwise :
+    ∀ (day : Nat) (mine : List Nat) (others : List (List Nat)) (lines : List Nat) (n : Nat)
+    (h : mergeFile day mine others = some (lines, n)),
+    (flat (rle lines)).length = mine.length ∧
+    ∀ i (hi : i < mine.length), (flat (rle lines))[i]? = some (Mg.resolve day mine[i] (transpose others i)).1 :=
+  @Bd.merged_nodes_pointwise
 end
 
 end Props.C07
